@@ -1581,6 +1581,7 @@ func refPool() []refStep {
 		{text: "[1,0]", sel: refConcat(refIndex(1), refIndex(0))}, {text: "[0,0]", sel: refConcat(refIndex(0), refIndex(0))}, {text: "[0,1:3]", sel: refConcat(refIndex(0), refSlice(ip(1), ip(3), 1))}, {text: "[0,0,1,1,0]", sel: refConcat(refIndex(0), refIndex(0), refIndex(1), refIndex(1), refIndex(0))},
 		{text: "[?(@.a)]", sel: refFilter(hasKey("a"))}, {text: "[?(@.b == 2)]", sel: refFilter(cmp("b", func(x float64) bool { return x == 2 }))}, {text: "[?(@.a > 1)]", sel: refFilter(cmp("a", func(x float64) bool { return x > 1 }))},
 		{text: "[?(!@.a)]", sel: refFilter(func(m interface{}) bool { return !hasKey("a")(m) })},
+		{text: "[?(1 == 1)]", sel: refFilter(func(m interface{}) bool { return true })},
 		{text: "[-3::2]", sel: refSlice(ip(-3), nil, 2)},
 		{text: "[0,2,1,3]", sel: refConcat(refIndex(0), refIndex(2), refIndex(1), refIndex(3))}, {text: "[0,0,2]", sel: refConcat(refIndex(0), refIndex(0), refIndex(2))},
 	}
@@ -1605,6 +1606,7 @@ func refDocs() []string {
 		`[{"a":1},{"a":2},{"a":3},{"a":4},{"a":5},{"b":2}]`,
 		`{"p":{"a":1,"y":2},"q":{"a":3,"y":4},"r":{"a":5,"b":2}}`,
 		`{"a":[[{"a":1}],{"a":2}],"b":[[[{"a":3,"b":2}]]]}`,
+		`[[{"a":1},{"a":2},[{"a":3},{"b":2,"a":[4]}]],{"b":[{"a":0},[{"a":5},{"a":6}],{"a":7}]}]`,
 		`{"a":[10,20,30,40,50],"b":{"p":{"a":1},"q":{"a":2},"r":{"b":2},"s":{"a":4}}}`,
 		// names that are prefixes of one another (order of the key sort), and members with several keys below an object filter
 		`{"a":{"a":1,"ab":2,"abc":[1],"b":2},"ab":{"a":2,"b":2,"c":0},"abc":{"a":3,"c":1},"b":{"a":4,"aa":1},"aa":5}`,
@@ -1841,6 +1843,39 @@ func apiCheckCompose(t *testing.T) {
 							t.Errorf("REPRODUCED: %q on %s gives %s, %v; %q applied to each result of %q gives %s", whole, ds, apiSnapshot(all), errAll, refRender(split.q), refRender(split.p), apiSnapshot(want))
 							return
 						}
+					}
+				}
+			}
+		}
+	}
+	// a filter function as the following step: it accepts every value (scalars and null too), so P.w() is w of each result of P
+	wcfg := Config{}
+	wcfg.SetFilterFunction("w", func(v interface{}) (interface{}, error) { return []interface{}{"w", v}, nil })
+	for _, ds := range append(refDocs(), `[1,2,3]`, `{"a":[1,null,"s",{"a":2},[3]]}`, `[[1,2],[3,null,4]]`) {
+		doc := refDecode(ds, false)
+		for _, p1 := range pool {
+			for _, p0 := range append([]refStep{{}}, pool[6], pool[0]) {
+				steps := []refStep{p1}
+				if p0.text != "" {
+					steps = []refStep{p0, p1}
+				}
+				path := refRender(steps)
+				apiCount()
+				base, _ := Retrieve(path, doc)
+				for _, fn := range []string{".w()", ".w().w()"} {
+					var want []interface{}
+					for _, v := range base {
+						w := interface{}([]interface{}{"w", v})
+						if fn == ".w().w()" {
+							w = []interface{}{"w", w}
+						}
+						want = append(want, w)
+					}
+					apiCount()
+					all, errAll := Retrieve(path+fn, doc, wcfg)
+					if (len(want) == 0) != (errAll != nil) || (errAll == nil && apiSnapshot(all) != apiSnapshot(want)) {
+						t.Errorf("REPRODUCED: %q on %s gives %s, %v; the function applied to each result of %q gives %s", path+fn, ds, apiSnapshot(all), errAll, path, apiSnapshot(want))
+						return
 					}
 				}
 			}
